@@ -40,3 +40,56 @@ Theorem C17_pure_mp11 : forall mc children rn rn' f,
   mflag_and mc children rn f = mflag_and mc children rn' f.
 Proof. exact mp11_flag_pure. Qed.
 Print Assumptions C17_pure_mp11.
+
+(* ---- the whole tree, after any history ---- *)
+From Msm Require Import Spec Lemmas_Sim Lemmas_Core Lemmas_SpecMp11 Lemmas_SpecRun Lemmas_SpecFlags.
+
+(* is_flag_active as a recursive function of the abstract configuration (active ids at every depth), for every
+   definition - not only the core fragment - and every runtime tree: back / back11, both compile policies *)
+Theorem C17_back_or_is_a_function_of_the_configuration : forall cf, c_be cf <> Mp11 -> forall parents mc contained rn f,
+  co_flag_or (build cf parents contained mc) rn f = sp_flag_or mc (abs rn) f.
+Proof. exact back_flag_or_spec. Qed.
+Print Assumptions C17_back_or_is_a_function_of_the_configuration.
+
+Theorem C17_back_and_is_a_function_of_the_configuration : forall cf, c_be cf <> Mp11 -> forall parents mc contained rn f,
+  co_flag_and (build cf parents contained mc) rn f = sp_flag_and_back mc (abs rn) f.
+Proof. exact back_flag_and_spec. Qed.
+Print Assumptions C17_back_and_is_a_function_of_the_configuration.
+
+(* backmp11: for started machines whose active submachine states have been entered (`runs`, implied by the invariant of
+   every history); a machine that is not running answers false / true whatever its tree holds *)
+Theorem C17_mp11_or_is_a_function_of_the_configuration : forall cf, c_be cf = Mp11 -> forall parents mc contained rn f, runs mc rn ->
+  co_flag_or (build cf parents contained mc) rn f = sp_flag_or mc (abs rn) f.
+Proof. exact mp11_flag_or_spec. Qed.
+Print Assumptions C17_mp11_or_is_a_function_of_the_configuration.
+
+Theorem C17_mp11_and_is_a_function_of_the_configuration : forall cf, c_be cf = Mp11 -> forall parents mc contained rn f, runs mc rn ->
+  co_flag_and (build cf parents contained mc) rn f = sp_flag_and_mp11 mc (abs rn) f.
+Proof. exact mp11_flag_and_spec. Qed.
+Print Assumptions C17_mp11_and_is_a_function_of_the_configuration.
+
+Theorem C17_mp11_stopped : forall cf, c_be cf = Mp11 -> forall parents mc contained rn f, running rn = false ->
+  co_flag_or (build cf parents contained mc) rn f = false /\ co_flag_and (build cf parents contained mc) rn f = true.
+Proof. exact mp11_flags_stopped. Qed.
+Print Assumptions C17_mp11_stopped.
+
+(* after every history of start / events / stop on a core definition: the flags answered are the flag functions of the
+   configuration the specification (Spec.v) prescribes *)
+Theorem C17_back_flags_after_every_history : forall cf, c_be cf = Back -> forall parents, (forall e, nth e parents None = None) ->
+  back_start_queues = true -> forall root, core root -> forall fuel, depth root + 2 <= fuel -> forall l f, Forall plain_op l ->
+  let rn' := final_rn cf root (build cf parents false root) fuel (init_rnode root) l in
+  let c' := sp_final false (c_pol cf) root (abs (init_rnode root)) l in
+  co_flag_or (build cf parents false root) rn' f = sp_flag_or root c' f /\
+  co_flag_and (build cf parents false root) rn' f = sp_flag_and_back root c' f.
+Proof. exact back_flags_after_history. Qed.
+Print Assumptions C17_back_flags_after_every_history.
+
+Theorem C17_mp11_flags_after_every_history : forall cf, c_be cf = Mp11 -> forall parents, (forall e, nth e parents None = None) ->
+  mp11_entry_throw_resets = true -> forall root, core root -> m_hist root = HNone -> forall fuel, depth root + 2 <= fuel ->
+  forall l f, bracketed false l -> ends_started false l = true ->
+  let rn' := final_rn cf root (build cf parents false root) fuel (init_rnode root) l in
+  let c' := sp_final true (c_pol cf) root (abs (init_rnode root)) l in
+  co_flag_or (build cf parents false root) rn' f = sp_flag_or root c' f /\
+  co_flag_and (build cf parents false root) rn' f = sp_flag_and_mp11 root c' f.
+Proof. exact mp11_flags_after_history. Qed.
+Print Assumptions C17_mp11_flags_after_every_history.
